@@ -201,6 +201,83 @@ def r2_shortcut_vs_dispatch(ctx) -> None:
 
 
 # ------------------------------------------------------------------------------------------ R3
+def precedence_table(ctx) -> dict:
+    """compare_precedence interpreted (sa.tabulate, Proxy): for three precedence tuples x outer operator x inner kind the
+    answer must be rank(inner) <= rank(outer) with rank = position in the backend's own tuple, -1 for leaves and rule
+    references, the rank of OR for a leaf holding an expansion and the rank of NOT for a not-exists leaf without explicit
+    template. Returns {'wrong': [...], 'n': cases, 'ranked': {kind: operator the kind is ranked as}}; cached per run."""
+    if getattr(ctx, "_c01_prec", None) is not None:
+        return ctx._c01_prec
+    from ..tabulate import Proxy, call_method, Raised
+    prog = ctx.prog
+
+    class ConditionItem: pass
+    class ConditionNOT(ConditionItem): pass
+    class ConditionAND(ConditionItem): pass
+    class ConditionOR(ConditionItem): pass
+    class CorrelationConditionItem: pass
+    class CorrelationConditionNOT(CorrelationConditionItem): pass
+    class CorrelationConditionAND(CorrelationConditionItem): pass
+    class CorrelationConditionOR(CorrelationConditionItem): pass
+    class SigmaRuleReference: pass
+    class SigmaExpansion: pass
+    class SigmaString: pass
+
+    class SigmaExists:
+        def __init__(self, v): self.v = v
+        def __bool__(self): return self.v
+
+    class ConditionFieldEqualsValueExpression:
+        def __init__(self, value): self.field, self.value = "f", value
+
+    class ConditionValueExpression:
+        def __init__(self, value): self.value = value
+    env = {k: v for k, v in locals().items() if isinstance(v, type)}
+    ops = {"NOT": ConditionNOT, "AND": ConditionAND, "OR": ConditionOR}
+    inner_kinds = {
+        "NOT node": (lambda: ConditionNOT(), "NOT"), "AND node": (lambda: ConditionAND(), "AND"), "OR node": (lambda: ConditionOR(), "OR"),
+        "correlation NOT": (lambda: CorrelationConditionNOT(), "NOT"), "correlation AND": (lambda: CorrelationConditionAND(), "AND"), "correlation OR": (lambda: CorrelationConditionOR(), "OR"),
+        "field=string": (lambda: ConditionFieldEqualsValueExpression(SigmaString()), None), "value only": (lambda: ConditionValueExpression(SigmaString()), None),
+        "rule reference": (lambda: SigmaRuleReference(), None), "None": (lambda: None, None),
+        "field=expansion": (lambda: ConditionFieldEqualsValueExpression(SigmaExpansion()), "OR"), "value expansion": (lambda: ConditionValueExpression(SigmaExpansion()), "OR"),
+        "field exists": (lambda: ConditionFieldEqualsValueExpression(SigmaExists(True)), None),
+        "field not exists": (lambda: ConditionFieldEqualsValueExpression(SigmaExists(False)), "NOT*"),
+    }
+    wrong, n = [], 0
+    IK = {"behaviours": (ValueError,), "max_steps": 4000}
+    for prec in (("NOT", "AND", "OR"), ("AND", "OR", "NOT"), ("OR", "NOT", "AND")):
+        for explicit in (False, True):
+            me = Proxy(prog, TQ, env, {"precedence": tuple(ops[x] for x in prec), "parenthesize": False, "explicit_not_exists_expression": explicit}, interp_kwargs=IK)
+            for outer_name in ("NOT", "AND", "OR", "cNOT", "cAND", "cOR"):
+                outer = {"cNOT": CorrelationConditionNOT, "cAND": CorrelationConditionAND, "cOR": CorrelationConditionOR}.get(outer_name, ops.get(outer_name))()
+                for kind, (mk, as_op) in inner_kinds.items():
+                    n += 1
+                    eff = as_op
+                    if as_op == "NOT*":
+                        eff = None if explicit else "NOT"
+                    want = (prec.index(eff) if eff else -1) <= prec.index(outer_name.lstrip("c"))
+                    try:
+                        got = bool(call_method(prog, TQ, "compare_precedence", me, env, outer, mk(), interp_kwargs=IK))
+                    except Raised as ex:
+                        got = f"<raises {ex}>"
+                    if got != want:
+                        wrong.append(f"precedence {prec}, explicit not-exists template={explicit}: outer {outer_name}, inner {kind}: {got} instead of {want}")
+    # parenthesize mode: everything but leaves and rule references is grouped
+    me = Proxy(prog, TQ, env, {"precedence": (ConditionNOT, ConditionAND, ConditionOR), "parenthesize": True, "explicit_not_exists_expression": False}, interp_kwargs=IK)
+    for kind in ("NOT node", "AND node", "OR node", "field=string", "value only", "rule reference"):
+        n += 1
+        want = kind in ("field=string", "value only", "rule reference")
+        try:
+            got = bool(call_method(prog, TQ, "compare_precedence", me, env, ConditionOR(), inner_kinds[kind][0](), interp_kwargs=IK))
+        except Raised as ex:
+            got = f"<raises {ex}>"
+        if got != want:
+            wrong.append(f"parenthesize mode: outer OR, inner {kind}: {got} instead of {want}")
+    ctx._c01_prec = {"wrong": wrong, "n": n}
+    return ctx._c01_prec
+
+
+
 def _none_branch_raises(f: FuncInfo) -> bool:
     """`if self.group_expression is None:` refuses (raises) instead of passing the ungrouped text on"""
     ifs = [x for x in walk_no_nested(f.node) if isinstance(x, ast.If) and unparse(x.test).replace(" ", "") == "self.group_expressionisNone"]
@@ -224,18 +301,13 @@ def r3_implicit_operators(ctx) -> None:
             n_found += 1
             loc = f"{f.module.relpath}:{c.lineno}"
             vcls = "SigmaExists" if f.name.endswith("_exists") else None
-            ranked = None
-            for br in (x for x in walk_no_nested(cp.node) if isinstance(x, ast.If)):
-                if vcls and f"isinstance(inner.value, {vcls})" in unparse(br.test):
-                    ranked = "self.precedence.index(ConditionNOT)" in "\n".join(unparse(x) for x in br.body)
-                    flag_ok = "not self.explicit_not_exists_expression" in unparse(br.test) and "not inner.value" in unparse(br.test)
-            if ranked and flag_ok:
-                r.ok("C01.R3", q, f"ConditionNOT(...) for {vcls}(False): ranked as ConditionNOT in compare_precedence under the same condition (no explicit not-exists template)", loc)
-            elif ranked:
-                r.violation("C01.R3", q, short(prog.enclosing_stmt(c), 120), "compare_precedence ranks the not-exists leaf as NOT under another condition than the one under which the handler synthesises the NOT (value false and no explicit not-exists template)", loc)
+            tbl = precedence_table(ctx)
+            bad_ne = [w for w in tbl["wrong"] if "not exists" in w]
+            if not bad_ne:
+                r.ok("C01.R3", q, f"ConditionNOT(...) for {vcls}(False): compare_precedence ranks the not-exists leaf as NOT exactly when there is no explicit not-exists template (interpreted table)", loc)
             else:
                 r.violation("C01.R3", q, short(prog.enclosing_stmt(c), 120),
-                            f"this handler turns a leaf ({vcls}) into a NOT and converts it, but compare_precedence ranks the leaf as a plain field expression: with a precedence in which NOT does not bind tightest the enclosing AND/OR emits `not exists(a) and b`, which the target reads as not (exists(a) and b)", loc)
+                            f"this handler turns a leaf ({vcls}) into a NOT and converts it, but compare_precedence does not rank the leaf as NOT under the same condition ({bad_ne[0]}): with a precedence in which NOT does not bind tightest the enclosing AND/OR emits `not exists(a) and b`, which the target reads as not (exists(a) and b)", loc)
         for c in (x for x in walk_no_nested(f.node) if isinstance(x, ast.Call) and call_name(x) in ("ConditionOR", "ConditionAND")):
             n_found += 1
             loc = f"{f.module.relpath}:{c.lineno}"
@@ -279,13 +351,12 @@ def r3_implicit_operators(ctx) -> None:
             else:
                 r.violation("C01.R3", q, short(prog.enclosing_stmt(c), 120),
                             f"this handler turns a single value ({vcls}) into an {call_name(c)[9:]} of several conditions, but neither compare_precedence nor the handler accounts for it: under an enclosing AND/NOT the alternatives are emitted without grouping", loc)
-    if "SigmaExpansion" in special:
-        # the special case must yield the OR precedence
-        src = unparse(cp.node)
-        if "= ConditionOR" in src and "idx_inner = self.precedence.index(inner_class)" in src:
-            r.ok("C01.R3", cp.qual, "expansion values are ranked as ConditionOR", cp.loc)
-        else:
-            r.violation("C01.R3", cp.qual, "inner_class = ConditionOR", "expansion values are not ranked with the precedence of OR", cp.loc)
+    tbl = precedence_table(ctx)
+    bad_exp = [w for w in tbl["wrong"] if "expansion" in w]
+    if not bad_exp:
+        r.ok("C01.R3", cp.qual, "expansion values are ranked as ConditionOR (interpreted table)", cp.loc)
+    else:
+        r.violation("C01.R3", cp.qual, f"compare_precedence: {bad_exp[0]}", "expansion values are not ranked with the precedence of OR", cp.loc)
     r.floor("C01.R3", 3)
 
 
@@ -293,33 +364,106 @@ def r3_implicit_operators(ctx) -> None:
 def r4_grouping(ctx) -> None:
     r, prog = ctx.r, ctx.prog
     r.rule("C01.R4", "grouping discipline: in the n-ary converters each child is converted directly iff compare_precedence(cond, child) and through convert_condition_group otherwise; NOT groups every child that is an operator or binds looser; the group function formats with group_expression or raises")
+    # the n-ary converters, interpreted (sa.tabulate, Proxy; helper methods resolve from the source): children with a stand-in
+    # compare_precedence answer, a direct and a group conversion; the result must hold every converted child in order, the
+    # grouped form exactly for the children compare_precedence(cond, child) rejects, None/deferred children left out
+    from ..tabulate import Proxy, call_method, Raised as _Raised
+
+    class DeferredQueryExpression:
+        pass
+
+    class CorrelationConditionItem:
+        def __init__(self, n: str = "", args: tuple = ()):
+            self.n, self.args = n, list(args)
+
+    class _Cond:
+        def __init__(self, args): self.args = list(args)
+
+    class _Leaf:
+        def __init__(self, n: str): self.n = n
+
+    dq = DeferredQueryExpression()
     for name in ("convert_condition_or", "convert_condition_and", "convert_extended_correlation_condition_or", "convert_extended_correlation_condition_and"):
         q = f"{TQ}.{name}"
         if not prog.has_func(q):
             continue
         f = prog.func(q)
-        ifexps = [n for n in walk_no_nested(f.node) if isinstance(n, ast.IfExp) and "compare_precedence" in unparse(n.test)]
-        if len(ifexps) != 1:
-            r.violation("C01.R4", q, "child conversion", "the per-child `direct if compare_precedence(cond, child) else group` expression was not found", f.loc)
-            continue
-        ie = ifexps[0]
-        loc = f"{f.module.relpath}:{ie.lineno}"
-        test, body, orelse = unparse(ie.test), call_name(ie.body) if isinstance(ie.body, ast.Call) else "", call_name(ie.orelse) if isinstance(ie.orelse, ast.Call) else ""
-        var = unparse(ie.body.args[0]) if isinstance(ie.body, ast.Call) and ie.body.args else "?"
-        direct_ok = body in ("self.convert_condition", "self.convert_extended_correlation_condition")
-        group_ok = orelse.endswith("_group")
-        inv_tests = (f"isinstance({var}, CorrelationConditionItem) and (not self.compare_precedence(cond, {var}))", f"not self.compare_precedence(cond, {var})")
-        if test == f"self.compare_precedence(cond, {var})" and direct_ok and group_ok and unparse(ie.orelse.args[0]) == var:
-            r.ok("C01.R4", q, f"{body}({var}) if compare_precedence(cond, {var}) else {orelse}({var})", loc)
-        elif test in inv_tests and body.endswith("_group") and orelse in ("self.convert_condition", "self.convert_extended_correlation_condition") and unparse(ie.orelse.args[0]) == var:
-            r.ok("C01.R4", q, f"{body}({var}) if not compare_precedence(cond, {var}) else {orelse}({var})", loc)
+        ext = "extended" in name
+        tok = "OR" if name.endswith("_or") else "AND"
+        problems: list[str] = []
+        ncases = 0
+        for sep, token in ((" ", tok), ("  ", tok), (" ", " ")):
+            for scenario in ("mixed", "empty", "all skipped", "single grouped"):
+                if ext:
+                    mk = lambda n: CorrelationConditionItem(n)  # noqa: E731
+                    kids = {"mixed": [(_Leaf("a"), True, "a"), (mk("b"), False, "b"), (mk("c"), True, "c"), (mk("d"), False, "d"), (_Leaf("e"), True, None), (_Leaf("g"), True, "g")],
+                            "empty": [], "all skipped": [(_Leaf("x"), True, None)], "single grouped": [(mk("b"), False, "b")]}[scenario]
+                    cond = CorrelationConditionItem("top", [k for k, _, _ in kids])
+                else:
+                    kids = {"mixed": [(_Leaf("a"), True, "a"), (_Leaf("b"), False, "b"), (_Leaf("c"), True, None), (_Leaf("d"), False, None), (_Leaf("e"), True, dq), (_Leaf("f"), False, dq), (_Leaf("g"), True, "g"), (_Leaf("h"), False, "h")],
+                            "empty": [], "all skipped": [(_Leaf("x"), True, None), (_Leaf("y"), False, dq)], "single grouped": [(_Leaf("b"), False, "b")]}[scenario]
+                    cond = _Cond([k for k, _, _ in kids])
+                ncases += 1
+                table = {id(k): (direct, text) for k, direct, text in kids}
+                misuse: list[str] = []
+
+                def compare_precedence(outer, inner, _c=cond, _t=table, _m=misuse):
+                    if outer is not _c or id(inner) not in _t:
+                        _m.append("compare_precedence is not asked about (cond, child)")
+                        return True
+                    return _t[id(inner)][0]
+
+                def direct(arg, st, _t=table, _m=misuse):
+                    if id(arg) not in _t:
+                        _m.append("a non-child is converted")
+                        return None
+                    return _t[id(arg)][1]
+
+                def group(arg, st, _t=table, _m=misuse):
+                    v = direct(arg, st)
+                    return f"({v})" if isinstance(v, str) else v
+
+                attrs = {"token_separator": sep, "or_token": token, "and_token": token, "empty_or_expression": "<empty or>", "empty_and_expression": "<empty and>",
+                         "compare_precedence": compare_precedence, "convert_condition": direct, "convert_condition_group": group,
+                         "convert_extended_correlation_condition": direct, "convert_extended_correlation_condition_group": group}
+                env = {"DeferredQueryExpression": DeferredQueryExpression, "CorrelationConditionItem": CorrelationConditionItem, "NotImplementedError": NotImplementedError, "TypeError": TypeError}
+                me = Proxy(prog, TQ, env, attrs, interp_kwargs={"max_steps": 4000})
+                parts = [(t if d else f"({t})") for _, d, t in kids if isinstance(t, str)]
+                try:
+                    got = call_method(prog, TQ, name, me, env, cond, "state" if not ext else "method", interp_kwargs={"max_steps": 4000})
+                except _Raised as ex:
+                    got = f"<raises {ex}>"
+                if misuse:
+                    problems.append(f"{scenario}: {misuse[0]}")
+                    continue
+                if not parts:
+                    okv = (got in ("<empty or>", "<empty and>") and tok.lower() in got) if not ext else (got in ("", None))
+                    if not okv:
+                        problems.append(f"{scenario} (separator {sep!r}, token {token!r}): {got!r} instead of the empty-{tok} expression")
+                    continue
+                if not isinstance(got, str):
+                    problems.append(f"{scenario} (separator {sep!r}, token {token!r}): {got!r} instead of the joined children {parts}")
+                    continue
+                # the converted children must appear in order, separated by text that holds the token and nothing else
+                pos, seps, okc = 0, [], True
+                for k, ptxt in enumerate(parts):
+                    at = got.find(ptxt, pos)
+                    if at < 0:
+                        okc = False
+                        break
+                    seps.append(got[pos:at])
+                    pos = at + len(ptxt)
+                seps.append(got[pos:])
+                if okc:
+                    okc = seps[0].strip() == "" and seps[-1].strip() == "" and all(x.strip() == token.strip() for x in seps[1:-1])
+                    if okc and not ext and token.strip():  # the documented joiner: separator + token + separator
+                        okc = all(x == sep + token + sep for x in seps[1:-1]) and seps[0] == "" and seps[-1] == ""
+                if not okc:
+                    problems.append(f"{scenario} (separator {sep!r}, token {token!r}): {got!r} instead of {(' ' + token.strip() + ' ').join(parts)!r} (children in order; grouped exactly where compare_precedence(cond, child) is false; None and deferred children left out)")
+        if problems:
+            r.violation("C01.R4", q, f"{name}: {problems[0]}", f"{len(problems)} of {ncases} interpreted cases deviate: children must be converted directly exactly when compare_precedence(cond, child) holds and through the group function otherwise, every child in order (swapped branches, another test, a skipped or reordered child change which sub-expressions are parenthesised or present)", f.loc)
         else:
-            r.violation("C01.R4", q, short(ie, 160), "children must be converted directly exactly when compare_precedence(cond, child) holds and through the group function otherwise (swapped branches or another test change which sub-expressions are parenthesised)", loc)
-        comp = next((a for a in prog.ancestors(ie) if isinstance(a, (ast.GeneratorExp, ast.ListComp))), None)
-        if comp is not None and unparse(comp.generators[0].iter) == "cond.args" and not comp.generators[0].ifs:
-            r.ok("C01.R4", q, "every child of cond.args is converted, in order", loc)
-        else:
-            r.violation("C01.R4", q, "for arg in cond.args", "not every child is converted (or not in order)", loc)
+            r.ok("C01.R4", q, f"interpreted on {ncases} cases: direct conversion iff compare_precedence(cond, child), group otherwise; every child of cond.args in order; None/deferred children left out", f.loc)
     nt = prog.func(TQ + ".convert_condition_not")
     gcalls = [c for c in walk_no_nested(nt.node) if isinstance(c, ast.Call) and call_name(c) == "self.convert_condition_group"]
     dcalls = [c for c in walk_no_nested(nt.node) if isinstance(c, ast.Call) and call_name(c) == "self.convert_condition"]
@@ -686,18 +830,12 @@ def r10_tokens(ctx) -> None:
     else:
         r.violation("C01.R10", nt.qual, f"tokens {sorted(attrs)}", "NOT converter must use not_token only", nt.loc)
     cp = prog.func(TQ + ".compare_precedence")
-    rets = [x for x in walk_no_nested(cp.node) if isinstance(x, ast.Return)]
-    early = [x for x in rets if unparse(x.value) == "False" and any(pol and "self.parenthesize" in unparse(t) and "not isinstance(inner, (ConditionFieldEqualsValueExpression, ConditionValueExpression" in unparse(t) for t, pol in guards_at(prog, cp, x))]
-    rets = [x for x in rets if x not in early]
-    if len(rets) == 1 and unparse(rets[0].value) == "idx_inner <= self.precedence.index(outer_class)":
-        r.ok("C01.R10", cp.qual, "return idx_inner <= self.precedence.index(outer_class)", cp.loc)
+    tbl = precedence_table(ctx)
+    other = [w for w in tbl["wrong"] if "expansion" not in w and "not exists" not in w]
+    if not other:
+        r.ok("C01.R10", cp.qual, f"compare_precedence interpreted on {tbl['n']} cases (3 precedence tuples of the backend itself x outer operator x inner kind, parenthesize mode): inner rank <= outer rank", cp.loc)
     else:
-        r.violation("C01.R10", cp.qual, stmt_head(rets[0]) if rets else "return", "precedence comparison must be `inner index <= outer index` on self.precedence (a strict or reversed comparison changes which children are parenthesised)", cp.loc)
-    lookups = [n for n in walk_no_nested(cp.node) if isinstance(n, ast.Call) and call_name(n).endswith(".index")]
-    if lookups and all(call_name(n) == "self.precedence.index" for n in lookups):
-        r.ok("C01.R10", cp.qual, "all rank lookups go to self.precedence (per backend class)", cp.loc)
-    else:
-        r.violation("C01.R10", cp.qual, str([call_name(n) for n in lookups]), "operator ranks are not looked up in the backend's own precedence tuple (a cache shared by all backend classes fixes the ranks of whichever backend ran first)", cp.loc)
+        r.violation("C01.R10", cp.qual, f"compare_precedence: {other[0]}", f"{len(other)} of {tbl['n']} interpreted cases deviate: precedence comparison must be `inner rank <= outer rank` over the backend's own precedence tuple (a strict or reversed comparison, or ranks cached across backend classes, change which children are parenthesised)", cp.loc)
     pa = prog.lookup_class_attr(TQ, "precedence")
     if pa and unparse(pa[1].value).replace(" ", "") == "(ConditionNOT,ConditionAND,ConditionOR)":
         r.ok("C01.R10", TQ, "default precedence (NOT, AND, OR)")
@@ -741,36 +879,135 @@ def r11_linking(ctx) -> None:
     else:
         r.violation("C01.R11", dc.qual, "negated default", "detection items must not be negated by default")
     pp = prog.func(D + ".SigmaDetectionItem.postprocess")
-    s2 = unparse(pp.node)
-    checks = [
-        ("if len(self.value) == 0:" in s2 and "ConditionFieldEqualsValueExpression(self.field, SigmaNull())" in s2, "0 values → field is null"),
-        ("elif len(self.value) == 1:" in s2 and "ConditionFieldEqualsValueExpression(self.field, self.value[0])" in s2 and "ConditionValueExpression(self.value[0])" in s2, "1 value → bare expression"),
-        ("self.value_linking([ConditionFieldEqualsValueExpression(self.field, v) for v in self.value])" in s2 and "self.value_linking([ConditionValueExpression(v) for v in self.value])" in s2, "n values → value_linking over all values"),
-    ]
-    for ok_, what in checks:
-        if ok_:
-            r.ok("C01.R11", pp.qual, what, pp.loc)
-        else:
-            r.violation("C01.R11", pp.qual, what, "value-count table of detection item postprocessing altered", pp.loc)
-    negs = [n for n in walk_no_nested(pp.node) if isinstance(n, ast.If) and unparse(n.test) == "self.negated"]
-    if len(negs) == 1:
-        body = [unparse(s) for s in negs[0].body]
-        need = ["not_cond = ConditionNOT([cond])", "not_cond.parent = parent", "cond.parent = not_cond", "return not_cond"]
-        miss = [x for x in need if x not in body]
-        loc = f"{pp.module.relpath}:{negs[0].lineno}"
-        if not miss:
-            r.ok("C01.R11", pp.qual, "negated → ConditionNOT([cond]) with parent links both ways", loc)
-        else:
-            r.violation("C01.R11", pp.qual, f"negation block lacks {miss}",
-                        "the negated item must be wrapped in exactly one ConditionNOT, the NOT linked to the item's parent and the item's condition linked to the NOT: the not-equals rendering and the precedence logic find the NOT only through these parent links", loc)
-    else:
-        r.violation("C01.R11", pp.qual, "if self.negated", "negation block not found", pp.loc)
     dp = prog.func(D + ".SigmaDetection.postprocess")
-    s3 = unparse(dp.node)
-    if "if len(items) == 1:\n        return items[0]" in s3 and "self.item_linking)(items)" in s3 and "for detection_item in self.detection_items" in s3:
-        r.ok("C01.R11", dp.qual, "1 item → itself; n items → item_linking(items) over all items", dp.loc)
+    # both postprocess methods interpreted (sa.tabulate, Proxy) on stand-in conditions that record the parent they are given
+    from ..tabulate import Proxy, call_method, Raised
+    import types as _types
+
+    class _C:
+        operator = False
+
+        def __init__(self, *a):
+            self.a, self.parent, self.source, self.pp = a, None, None, None
+
+        def postprocess(self, detections, parent=None, source=None):
+            self.pp, self.parent, self.source = (parent, source), parent, source
+            return self
+
+    class ConditionFieldEqualsValueExpression(_C): pass
+    class ConditionValueExpression(_C): pass
+    class ConditionNOT(_C): pass
+    class ConditionOR(_C): pass
+    class ConditionAND(_C): pass
+
+    class SigmaNull:
+        def __eq__(self, o): return isinstance(o, SigmaNull)
+        __hash__ = None
+
+    class SigmaConditionError(Exception):
+        def __init__(self, *a, **k): super().__init__(*a)
+
+    env = {"ConditionFieldEqualsValueExpression": ConditionFieldEqualsValueExpression, "ConditionValueExpression": ConditionValueExpression, "ConditionNOT": ConditionNOT,
+           "ConditionOR": ConditionOR, "ConditionAND": ConditionAND, "SigmaNull": SigmaNull, "sigma_exceptions": _types.SimpleNamespace(SigmaConditionError=SigmaConditionError),
+           "SigmaConditionError": SigmaConditionError, "cast": lambda t, v: v}
+    IK = {"behaviours": (SigmaConditionError, AttributeError), "max_steps": 4000}
+    DI = D + ".SigmaDetectionItem"
+    rows: dict[str, list[str]] = {"0 values → field is null (an error without field)": [], "1 value → bare expression": [], "n values → value_linking over all values": [], "negated → ConditionNOT([cond]) with parent links both ways": []}
+    ncases = 0
+    for fieldname in (None, "f"):
+        for values in ([], ["v1"], ["v1", "v2", "v3"]):
+            for negated in (False, True):
+                for linking in (ConditionOR, ConditionAND):
+                    ncases += 1
+                    me = Proxy(prog, DI, env, {"field": fieldname, "value": list(values), "negated": negated, "value_linking": linking, "source": "src", "modifiers": []}, interp_kwargs=IK)
+                    par, dets = object(), object()
+                    key = {0: "0 values → field is null (an error without field)", 1: "1 value → bare expression"}.get(len(values), "n values → value_linking over all values")
+                    desc = f"field={fieldname!r}, {len(values)} value(s), negated={negated}, linking={linking.__name__}"
+                    try:
+                        got = call_method(prog, DI, "postprocess", me, env, dets, par, None, interp_kwargs=IK)
+                    except Raised as ex:
+                        got = ex
+                    if not values and fieldname is None:
+                        if not isinstance(got, Raised):
+                            rows[key].append(f"{desc}: {got!r} instead of a SigmaConditionError")
+                        continue
+                    if isinstance(got, Raised):
+                        rows[key].append(f"{desc}: raises {got}")
+                        continue
+                    cond = got
+                    if negated:
+                        nk = "negated → ConditionNOT([cond]) with parent links both ways"
+                        if not (isinstance(got, ConditionNOT) and len(got.a) == 1 and isinstance(got.a[0], list) and len(got.a[0]) == 1):
+                            rows[nk].append(f"{desc}: result {type(got).__name__} is not one ConditionNOT around the item's condition")
+                            continue
+                        cond = got.a[0][0]
+                        if isinstance(cond, ConditionNOT):
+                            rows[nk].append(f"{desc}: the item's condition is wrapped in two NOTs")
+                        if got.parent is not par:
+                            rows[nk].append(f"{desc}: the NOT is not linked to the item's parent")
+                        if cond.parent is not got:
+                            rows[nk].append(f"{desc}: the item's condition is not linked to the NOT")
+                        if got.source != "src":
+                            rows[nk].append(f"{desc}: the NOT carries no source")
+                    elif isinstance(got, ConditionNOT):
+                        rows["negated → ConditionNOT([cond]) with parent links both ways"].append(f"{desc}: an item that is not negated yields a NOT")
+                        continue
+                    leafcls = ConditionFieldEqualsValueExpression if fieldname is not None else ConditionValueExpression
+                    mkargs = (lambda v: (fieldname, v)) if fieldname is not None else (lambda v: (v,))
+                    if len(values) == 0:
+                        if not (type(cond) is ConditionFieldEqualsValueExpression and cond.a == ("f", SigmaNull())):
+                            rows[key].append(f"{desc}: {type(cond).__name__}{getattr(cond, 'a', '')} instead of field = null")
+                    elif len(values) == 1:
+                        if not (type(cond) is leafcls and cond.a == mkargs("v1")):
+                            rows[key].append(f"{desc}: {type(cond).__name__}{getattr(cond, 'a', '')} instead of {leafcls.__name__}{mkargs('v1')}")
+                    else:
+                        okl = type(cond) is linking and len(cond.a) == 1 and isinstance(cond.a[0], list) and [(type(x), x.a) for x in cond.a[0]] == [(leafcls, mkargs(v)) for v in values]
+                        if not okl:
+                            rows[key].append(f"{desc}: {type(cond).__name__}{[(type(x).__name__, x.a) for x in cond.a[0]] if getattr(cond, 'a', None) and isinstance(cond.a[0], list) else ''} instead of {linking.__name__} over all values in order")
+                    if getattr(cond, "pp", None) is None and not negated:
+                        rows[key].append(f"{desc}: the condition is not postprocessed (no parent link)")
+    for what, bad in rows.items():
+        if bad:
+            r.violation("C01.R11", pp.qual, f"{what}: {bad[0]}", f"{len(bad)} deviation(s) in {ncases} interpreted cases: value-count table / negation wrapping of detection item postprocessing altered (the negated item must be wrapped in exactly one ConditionNOT, the NOT linked to the item's parent and the item's condition linked to the NOT: the not-equals rendering and the precedence logic find the NOT only through these parent links)", pp.loc)
+        else:
+            r.ok("C01.R11", pp.qual, f"{what} ({ncases} interpreted cases)", pp.loc)
+    # SigmaDetection.postprocess
+    SD = D + ".SigmaDetection"
+
+    class _Item:
+        def __init__(self, n, res=True):
+            self.n, self.res, self.seen = n, res, None
+
+        def postprocess(self, detections, parent=None, source=None):
+            c = _C(self.n) if self.res else None
+            if c is not None:
+                c.parent = parent
+            return c
+
+    import copy as _copy
+    bad = []
+    for count in (0, 1, 2, 4):
+        for linking in (ConditionOR, ConditionAND):
+            items = [_Item(f"i{k}") for k in range(count)]
+            me = Proxy(prog, SD, dict(env, copy=_copy), {"detection_items": items, "item_linking": linking, "source": "src"}, interp_kwargs=IK)
+            par = object()
+            try:
+                got = call_method(prog, SD, "postprocess", me, dict(env, copy=_copy), object(), par, None, interp_kwargs=IK)
+            except Raised as ex:
+                bad.append(f"{count} item(s): raises {ex}")
+                continue
+            if count == 0:
+                okd = got is None
+            elif count == 1:
+                okd = isinstance(got, _C) and got.a == ("i0",) and got.parent is me
+            else:
+                okd = type(got) is linking and len(got.a) == 1 and [getattr(x, "a", None) for x in got.a[0]] == [(f"i{k}",) for k in range(count)] and got.pp is not None and got.pp[0] is par and all(x.parent is me for x in got.a[0])
+            if not okd:
+                bad.append(f"{count} item(s), linking {linking.__name__}: {type(got).__name__}{getattr(got, 'a', '')}")
+    if bad:
+        r.violation("C01.R11", dp.qual, f"SigmaDetection.postprocess: {bad[0]}", "item-count table of detection postprocessing altered (1 item → itself; n items → item_linking(items) over all items in order, linked to the parent; items linked to the detection)", dp.loc)
     else:
-        r.violation("C01.R11", dp.qual, "SigmaDetection.postprocess", "item-count table of detection postprocessing altered", dp.loc)
+        r.ok("C01.R11", dp.qual, "1 item → itself; n items → item_linking(items) over all items (interpreted: 0/1/2/4 items, both linkings)", dp.loc)
     am = prog.func("sigma.modifiers.SigmaAllModifier.modify")
     if "self.detection_item.value_linking = ConditionAND" in unparse(am.node):
         r.ok("C01.R11", am.qual, "'all' → value_linking = ConditionAND", am.loc)
@@ -804,6 +1041,21 @@ def r14_parent_links_per_reference(ctx) -> None:
                 return f"constructor {q.rsplit('.', 1)[-1]}(…)"
             if isinstance(e.func, ast.Attribute) and e.func.attr == "postprocess":
                 return fresh(fi, e.func.value, depth + 1)
+            # a helper (function nested in this one, or method of the same class) all of whose returns are fresh
+            helper = None
+            if isinstance(e.func, ast.Name):
+                nd = next((x for x in ast.walk(fi.node) if isinstance(x, ast.FunctionDef) and x is not fi.node and x.name == e.func.id), None)
+                if nd is not None:
+                    helper = (fi, nd)
+            elif isinstance(e.func, ast.Attribute) and unparse(e.func.value) == "self" and fi.cls and prog.has_func(f"{fi.cls.qual}.{e.func.attr}"):
+                hf = prog.func(f"{fi.cls.qual}.{e.func.attr}")
+                helper = (hf, hf.node)
+            if helper is not None and depth < 3:
+                hfi, nd = helper
+                rets = [x for st in nd.body for x in ast.walk(st) if isinstance(x, ast.Return)]
+                whys = [fresh(hfi, x.value, depth + 1) if x.value is not None else None for x in rets]
+                if rets and all(whys):
+                    return f"result of helper {nd.name}(): " + "; ".join(sorted(set(whys)))
             return None
         if isinstance(e, ast.Name) and depth < 4:
             srcs = []
